@@ -114,11 +114,35 @@ def mutants(g, rng, full):
         yield ("two-defects", "missing transitions + bad successor", h, True)
 
 
+CATEGORY = [("transition list must have the same number", "transition list length"),
+            ("reward list must have the same number", "reward list length"),
+            ("rewards must be positive", "negative reward"),
+            ("final states must be in the range", "final state out of range"),
+            ("player must be", "unknown player"),
+            ("missing transitions", "missing transitions"),
+            ("next states must be a list.", "next states must be a list"),
+            ("next states must be a list of tuples.", "list of tuples"),
+            ("tuples of length 2", "tuples of length 2"),
+            ("action must be a str", "action must be a str"),
+            ("probability must be a number", "probability must be a number"),
+            ("next state must be an int", "next state must be an int"),
+            ("next state must be in the range", "next state out of range"),
+            ("arg is an empty sequence", "empty"), ("iterable argument is empty", "empty")]
+
+
+def category(msg):
+    low = str(msg).lower()
+    for pat, cat in CATEGORY:
+        if pat in low:
+            return cat
+    return None
+
+
 def solve_outcome(g, prune):
     """outcome class of StochasticGame(**g).solve() — result must be absent on error"""
     tad = repo("tad")
     try:
-        with quiet(), time_limit(5.0):
+        with quiet(), time_limit(5.0), impl.maybe_debug():
             res = tad.StochasticGame(**copy.deepcopy(g), prune_states=prune).solve()
         return "ok", res
     except Timeout:
@@ -133,16 +157,18 @@ def check_mutant(ctx, base, rule, pos, h, nontriv, model, ok_games):
     inp = {"rule": rule, "position": pos, "game": h}
     ctx.case(inp, nontriv)
     ctx.count("rule=" + rule)
+    first_msg = None
     for prune in (True, False):
         out, info = solve_outcome(h, prune)
         if out != "ValueError":
             ctx.violation("raises-ValueError", dict(inp, prune=prune), {"outcome": out, "info": str(info)[:200]})
             return
+        first_msg = first_msg or info
     # the batch runner records the error and goes on
     cr = repo("conditionalrewards")
     d = {"before": copy.deepcopy(ok_games[0]), "broken": copy.deepcopy(h), "after": copy.deepcopy(ok_games[1])}
     try:
-        with quiet(), time_limit(10.0):
+        with quiet(), time_limit(10.0), impl.maybe_debug():
             res = cr.run_games(d)
     except Timeout:
         ctx.violation("batch-records-message", inp, {"outcome": "Timeout"})
@@ -159,10 +185,19 @@ def check_mutant(ctx, base, rule, pos, h, nontriv, model, ok_games):
         ctx.violation("batch-continues", inp, {"before": res["before"]["msg"], "after": res["after"]["msg"]})
         return
     if model is not None and wire.in_c09_domain(h):
+        cat = category(first_msg)
+
+        def cmp_rule(e, r, cat=cat):
+            v = r.get("validate", {})
+            if not v.get("outcome", "").startswith("ValueError"):
+                return f"implementation raises ValueError, model validate says {v}"
+            d_ = v.get("detail", "")
+            # WHICH rule is reported first is part of the recorded message (order of the checks)
+            if cat and cat != "empty" and not d_.startswith("min of empty") and not d_.startswith("max of empty") and cat != d_:
+                return f"first reported rule: implementation '{cat}', model '{d_}'"
+            return None
         model.add("validate", {"game": wire.pygame_payload(h), "thr": fbits(1e-6), "prune": True},
-                  expect="ValueError", inp=inp, suite="corr.validate",
-                  cmp=lambda e, r: None if r.get("validate", {}).get("outcome", "").startswith("ValueError") else
-                  f"implementation raises ValueError, model validate says {r.get('validate')}")
+                  expect="ValueError", inp=inp, suite="corr.validate", cmp=cmp_rule)
 
 
 def odd_but_valid(rng, g):
@@ -200,12 +235,16 @@ def run(ctx, model=None):
     rng = random.Random(ctx.seed * 553105253 + 9)
     from props.c10 import example_games
     bases = [g for g in example_games() if len(g["players"]) <= 12][:3]
+    # a probabilistic single-transition state BEFORE player states (for shared-list-object mutants)
+    bases.insert(1, {"rewards": [0, 1, 0, 0, 0], "players": [PR, P1, P2, PR, PR],
+                     "transition_list": [[(1, 1)], [("a", 2), ("b", 4)], [("x", 3), ("y", 4)], [(1, 3)], [(1, 4)]],
+                     "final_states": [4], "_meta": {"family": "fixed"}})
     for _ in range(3 if ctx.quick() else 150):
         bases.append(gen.stopping_game(rng, n_inner=rng.randint(2, 5)))
     ok_games = solvable_pair()
     for bi, b in enumerate(bases):
         g = gen.desc(b)
-        full = (not ctx.quick()) or bi == 0
+        full = (not ctx.quick()) or bi <= 1
         for rule, pos, h, nt in mutants(g, rng, full):
             check_mutant(ctx, g, rule, pos, h, nt, model, ok_games)
             if ctx.time_left() < 0:
